@@ -101,6 +101,10 @@ Section Laws.
     law_remove_leaf : forall w p n, quiet w -> swf (V w) -> snolinkpar (V w) p -> V w !! p = Some n ->
       no_children (V w) p -> p <> s_root ->
       exists s', ok_step (a_remove a p) w tt s' /\ s' !! p = None /\ store_eqv_except [p] s' (V w) /\ swf s';
+    (** RemoveAll of a non-directory is Remove *)
+    law_removeall_leaf : forall w p n, quiet w -> swf (V w) -> snolinkpar (V w) p -> V w !! p = Some n ->
+      node_kind n <> KDir -> p <> s_root ->
+      exists s', ok_step (a_removeall a p) w tt s' /\ s' !! p = None /\ store_eqv_except [p] s' (V w) /\ swf s';
     law_remove_none : forall w p, quiet w -> swf (V w) -> snolinkpar (V w) p -> V w !! p = None ->
       err_step (a_remove a p) w not_found;
     law_remove_nonempty : forall w p n, quiet w -> swf (V w) -> snolinkpar (V w) p -> V w !! p = Some n ->
